@@ -563,6 +563,9 @@ func cbFailure(how string) cgate {
 		return cgate{code: cbSystemError, msg: "json: unsupported type: chan int", how: how}
 	case "panic":
 		return cgate{code: cbSystemError, msg: "panic in callback handler: boom", how: how}
+	case "baddata":
+		// an *Error whose data are not valid JSON: sent without them (fix a8edc0b), never as an empty record
+		return cgate{code: 5, msg: "callback says no", how: how}
 	}
 	return cgate{code: -32000, msg: "callback says no"}
 }
@@ -748,6 +751,8 @@ func (r *cliRun) start() {
 					return make(chan int), nil
 				case m.how == "panic":
 					panic("boom")
+				case m.how == "baddata":
+					return nil, &jrpc2.Error{Code: jrpc2.Code(m.code), Message: m.msg, Data: json.RawMessage("{bad")}
 				case m.code != 0:
 					return nil, &jrpc2.Error{Code: jrpc2.Code(m.code), Message: m.msg}
 				}
